@@ -155,6 +155,11 @@ fn seq_spec(proto: &Proto, extra: usize, devs: usize, nonce_edge: bool) -> SeqSp
                     a.push((Op::RekeyOut { side: s }, false));
                     a.push((Op::RekeyIn { side: s }, false));
                     a.push((Op::RekeyManual { side: s, i: Some(1), r: Some(2) }, false));
+                    // set_receiving_nonce is about the *receiving* direction only: it must never move the sending
+                    // counter (rewinding that one would reuse a nonce)
+                    if written >= 1 {
+                        a.push((Op::SetRecvNonce { side: s, n: 0 }, true));
+                    }
                     // moving the sending nonce *forward* to the edge (never backward: that would be the
                     // caller's own reuse): writes at 2^64-2 and at the reserved 2^64-1, then a rekey
                     let ds = usize::from(!s.is_init());
